@@ -105,7 +105,9 @@ def run(ctx):
         ctx.ob("C14.F1.only-one-unlocated-exit", tag + "eval_impl", n_ex <= 1,
                "%d error exits skip process_err under the sink-write exception (reviewed: 1)" % n_ex, ev.loc)
         # ---- F1c process_err structure
-        pe = prog.fn(PERR)
+        # read through a helper the lookup of the location may have been moved into (`locate_instruction(instructions, pc)`)
+        pe = prog.view(PERR, keep=("line", "get_span", "get_line", "set_filename_and_span", "set_filename_and_line", "is_none",
+                                   "name", "attach_debug_info", "make_debug_info"), allow_pub=True)
         names = [c.name for c in pe.calls()]
         need = ["minijinja::error::Error::line", "minijinja::compiler::instructions::Instructions::get_span",
                 "minijinja::error::Error::set_filename_and_span",
